@@ -38,7 +38,10 @@ fn render_is_backface_signed_area() {
 }
 
 fn cv(z: F) -> ClipVert<u8> {
-    ClipVert::new(vertex(ClipVec::new([0.0, 0.0, z, 1.0e9]), kani::any()))
+    // the outcode is irrelevant to depth_sort: compute it once for a concrete point, then set the (public) position
+    let mut v = ClipVert::new(vertex(ClipVec::new([0.0, 0.0, 0.0, 1.0]), 0u8));
+    v.pos = ClipVec::new([0.0, 0.0, z, 1.0]);
+    v
 }
 
 fn key(t: &Tri<ClipVert<u8>>) -> F {
